@@ -22,7 +22,7 @@ COMPONENTS = {"real": ["pyjelly serializers and parsers of both integrations inc
               "stub": ["reader for the option-off clause: simkit.refdec"]}
 ASSUMPTIONS = ["rdflib: bindings use labels/IRIs that do not collide with rdflib's default bindings and are compared "
                "as rdflib holds them on the source graph"]
-PROBES = ["generator_with_option_on", "multi_group_declarations", "generic_runs", "rdflib_runs", "evictions_with_ns", "empty_prefix_label", "cross_integration_reads",
+PROBES = ["bare_target_reads", "generator_with_option_on", "multi_group_declarations", "generic_runs", "rdflib_runs", "evictions_with_ns", "empty_prefix_label", "cross_integration_reads",
           "physical_GRAPHS", "physical_QUADS"]
 SHRINK_LISTS = ["ops"]
 
@@ -33,6 +33,11 @@ def generate(rng, run, tier):
     physical = rng.choice(["TRIPLES", "TRIPLES", "QUADS", "GRAPHS"])
     stmts, flags, sizes, pools = c01.gen_workload(rng, physical, rdflib_safe=safe, max_n=12)
     nss = W.gen_namespaces(rng, pools, rng.randint(1, 6), rdflib_safe=safe)
+    bare = integration == "rdflib" and physical == "TRIPLES" and rng.random() < 0.5
+    if bare and rng.random() < 0.4:
+        # a graph created without rdflib's default bindings may use their labels for its own namespaces
+        nss.append(rng.choice([("schema", "http://schema.org/"), ("dc", "http://example.org/dc#"),
+                               ("geo", "http://example.org/geo/")]))
     mp, mn, md = c01.fit_tables(rng, stmts, nss, sizes, physical)
     if md == 0 and W.has_datatypes(stmts):
         md = max(1, W.max_needs(stmts)[2])
@@ -46,6 +51,8 @@ def generate(rng, run, tier):
                             generalized=flags["generalized"], rdf_star=flags["rdf_star"], entry=entry, ns=True)
     if entry == "graph_serialize" and physical == "GRAPHS":
         cfg["pass_stream"] = True
+    if bare:
+        cfg["bare"] = True      # source (and, in clause 1b, target) graph without rdflib's default bindings
     if entry == "grouped_file":
         cfg["groups"] = c01.split_groups(rng, len(stmts)) if rng.random() < 0.6 else [len(stmts)]
         cfg["ns_all_groups"] = True
@@ -129,12 +136,36 @@ def execute(plan, sim):
         if dict(cont_ns) != want_map or [p for p, _ in cont_ns] != list(want_map):
             v.append({"clause": "C14.declarations_differ", "sig": {"integration": integration, "reader": "container"},
                       "msg": f"bound on the source {want!r}; sink.namespaces after parse {cont_ns!r}"})
-    else:
+    elif not cfg.get("bare"):
+        # (a bare source may use labels that rdflib's default bindings of the default target own: clause 1b)
         got_map = dict(cont_ns)
         bad = [(p, i) for p, i in want if got_map.get(p) != i]
         if bad or not is_subsequence([p for p, _ in want], [p for p, _ in cont_ns]):
             v.append({"clause": "C14.declarations_differ", "sig": {"integration": integration, "reader": "container"},
                       "msg": f"source bindings not found (or out of order) after Graph.parse: {bad[:3]!r}"})
+    # (1b) rdflib: a target created WITHOUT rdflib's default bindings must hold exactly what the stream declares
+    #      (this is what rdflib's own parsers deliver into such a graph)
+    if cfg.get("bare") and cfg["entry"] != "frames_gen" and n_groups == 1:
+        # (rdflib's Dataset has no bind_namespaces argument in this version: triples/Graph only)
+        import rdflib
+        sim.count("bare_target_reads")
+        bare = rdflib.Graph(bind_namespaces="none")
+        before = [(p_, str(i_)) for p_, i_ in bare.namespaces()]
+        try:
+            bare.parse(data=data_on, format="jelly")
+            got_b = [(p_, ("iri", str(i_))) for p_, i_ in bare.namespaces() if (p_, str(i_)) not in before]
+            # the stream's declarations, last one per prefix winning (bind() semantics), in order
+            if sorted(got_b) != sorted(dict(ev).items()):
+                extra = [b for b in got_b if b not in ev]
+                missing = [b for b in dict(ev).items() if b not in got_b]
+                v.append({"clause": "C14.declarations_differ",
+                          "sig": {"integration": integration, "reader": "plugin into a graph without default bindings"},
+                          "msg": f"stream declares {ev!r}; Graph(bind_namespaces='none').parse() ends up with "
+                                 f"{len(got_b)} bindings, {len(extra)} never declared (e.g. {extra[:3]!r}), "
+                                 f"missing {missing[:3]!r}"})
+        except Exception as e:  # noqa: BLE001
+            v.append({"clause": "C14.parse_raised", "sig": {"exc": type(e).__name__, "reader": "bare"},
+                      "msg": f"{type(e).__name__}: {e}"})
     # (2) statements identical with the option on and off
     same = (st_on == st_off) if integration == "generic" else (set(st_on) == set(st_off))
     if not same:
